@@ -2,7 +2,7 @@
    Only statements, [exact], examples and [Print Assumptions] live here. *)
 From Coq Require Import String Ascii.
 From Coq Require Import List Arith Bool.
-Require Import TT.Model.Base TT.Model.Str TT.Model.C07TypeParse TT.Model.Harvest TT.Model.C07Worklist TT.Model.C07Reach TT.Model.Topo.
+Require Import TT.Model.Base TT.Model.Str TT.Model.C07TypeParse TT.Model.C07Harvest TT.Model.C07Worklist TT.Model.C07Reach TT.Model.Topo.
 Require Import TT.Spec.C07Spec TT.Spec.C07Known TT.Spec.C09Spec TT.Spec.C09Known.
 Require Import TT.Proofs.TopoProofs TT.Proofs.C20Extra TT.Proofs.C09Proofs TT.Proofs.C09Acyclic TT.Proofs.C07Lift TT.Proofs.C09Full TT.Proofs.C07Total TT.Proofs.C09Witness.
 Import ListNotations.
@@ -11,10 +11,11 @@ Import ListNotations.
    outside the recorded classes whose type dependency graph (serde types and the serde types their
    fields mention) is acyclic: the schema constants are emitted without repetition and every declared
    schema that a struct's fields mention - wherever in the field type it is nested - comes before that
-   struct's schema. (kf_c07_result_alias is the class of C09-1 extended to root types.) *)
+   struct's schema. No class of its own remains: C09-1 (edge hidden under a one-argument Result) was repaired;
+   the classes below are those in which the two string scanners lose a name altogether (C07). *)
 Theorem C09_decl_before_use : forall (o : orders) (p : project) (out : list str),
   ord_ok o -> in_domain p = true ->
-  kf_c07_result_map p = false -> kf_c07_tuple_generic p = false -> kf_c07_result_alias p = false ->
+  kf_c07_result_map p = false -> kf_c07_tuple_generic p = false ->
   kf_c07_field_result p = false -> kf_c07_odd_name p = false -> kf_c07_inline_mod p = false ->
   acyclic (spec_graph p) -> emitted_zod o p = Some out ->
   NoDup out /\ forall u v, In u out -> In v out -> In v (schema_refs p u) -> idx_before out v u.
@@ -22,7 +23,7 @@ Proof. exact zod_order_full. Qed.
 
 (* outside the classes every schema reference to a defined type is a recorded dependency *)
 Theorem C09_edges_recorded : forall p, in_domain p = true ->
-  kf_c07_result_map p = false -> kf_c07_tuple_generic p = false -> kf_c07_result_alias p = false ->
+  kf_c07_result_map p = false -> kf_c07_tuple_generic p = false ->
   kf_c07_field_result p = false -> kf_c07_odd_name p = false -> kf_c07_inline_mod p = false -> edges_recorded_b p = true.
 Proof. exact edges_recorded_from_classes. Qed.
 
@@ -67,16 +68,20 @@ Proof. intros o p Ho Hd. exact (emitted_zod_total o Ho p (domain_nodup p Hd)). Q
 (* Not modelled: the template-level clause (parameter schemas after all struct schemas); it is a fact
    about zod/templates/types.ts.tera and is checked by the run-time oracle decl_before_use on every file. *)
 
-(* inside the class: an acyclic in-domain project and a legitimate iteration order under which
-   OrderSchema, which mentions ItemSchema, is emitted first; under the default order it is not *)
-Theorem C09_hidden_edge_refuted :
-  ord_ok o_bad /\ in_domain w_hidden = true /\ spec_acyclic w_hidden = true /\ kf_c09_result_alias w_hidden = true /\
-  edges_recorded_b w_hidden = false /\
-  emitted_zod o_bad w_hidden = Some [L "Order"; L "Item"] /\
+(* the former witness of C09-1 (struct Order { x: Result<Item> }): the edge is recorded now and ItemSchema
+   precedes OrderSchema under the order that used to fail, the default order and the sorted orders *)
+Theorem C09_hidden_edge_repaired :
+  ord_ok o_bad /\ in_domain w_hidden = true /\ spec_acyclic w_hidden = true /\
+  edges_recorded_b w_hidden = true /\
   In (L "Item") (schema_refs w_hidden (L "Order")) /\
-  idx_before [L "Order"; L "Item"] (L "Order") (L "Item") /\
-  emitted_zod o_default w_hidden = Some [L "Item"; L "Order"].
-Proof. exact hidden_edge_refuted. Qed.
+  emitted_zod o_bad w_hidden = Some [L "Item"; L "Order"] /\
+  emitted_zod o_default w_hidden = Some [L "Item"; L "Order"] /\
+  emitted_zod o_sorted w_hidden = Some [L "Item"; L "Order"].
+Proof. exact hidden_edge_repaired. Qed.
+
+(* the iteration orders of the repaired tool (every collection sorted before use) are legitimate orders *)
+Theorem C09_sorted_orders_ok : ord_ok o_sorted.
+Proof. exact ord_ok_sorted. Qed.
 
 (* non-vacuity: a three-file project with a diamond, an enum, decoys, a channel and an event meets the
    premises and emits eight schemas *)
@@ -100,4 +105,5 @@ Print Assumptions C09_declared_discovered.
 Print Assumptions C09_observed_orders_ok.
 Print Assumptions C09_rank_acyclic.
 Print Assumptions C09_model_total.
-Print Assumptions C09_hidden_edge_refuted.
+Print Assumptions C09_hidden_edge_repaired.
+Print Assumptions C09_sorted_orders_ok.
